@@ -537,3 +537,13 @@ func init() {
 		}
 	}
 }
+
+func init() {
+	intrinsics[vsymPath+".LenOnly"] = func(vm *VM, fr *frame, args []Value, cc *ssa.CallCommon) Value {
+		n := args[0].(*Term)
+		if n.op == OpConst {
+			return Slice{obj: vm.newObj(0, "len-only"), len: int(n.c), cap: int(n.c), symLen: n}
+		}
+		return Slice{obj: vm.newObj(0, "len-only"), symLen: n}
+	}
+}
